@@ -23,7 +23,7 @@ M64 = (1 << 64) - 1
 KEYWORDS = {'SELECT', 'FROM', 'WHERE', 'AND', 'OR', 'NOT', 'NULL', 'IS', 'IN', 'INSERT', 'INTO', 'VALUES', 'UPDATE', 'SET', 'DELETE', 'REPLACE', 'ORDER', 'BY',
             'LIMIT', 'DESC', 'ASC', 'AS', 'CREATE', 'TRIGGER', 'TABLE', 'VIEW', 'INDEX', 'BEFORE', 'AFTER', 'INSTEAD', 'OF', 'ON', 'FOR', 'EACH', 'ROW', 'WHEN',
             'BEGIN', 'END', 'UNIQUE', 'PRIMARY', 'KEY', 'AUTOINCREMENT', 'CONSTRAINT', 'FOREIGN', 'REFERENCES', 'DEFAULT', 'CASCADE', 'RESTRICT',
-            'JOIN', 'INNER', 'UNION', 'ALL'}
+            'JOIN', 'INNER', 'UNION', 'ALL', 'LIKE'}
 TOK = re.compile(r"\s*(?:(\d+)|('(?:[^']|'')*')|(\[[^\]]*\]|\"[^\"]*\"|[A-Za-z_][A-Za-z_0-9]*)|(<>|!=|<=|>=|==|\|\||[-+*/(),;=<>?.]))")
 
 class SqlError(Exception): pass
@@ -92,7 +92,16 @@ class Parser:
                 s.i += 1; neg = s.accept('kw', 'NOT'); s.expect('kw', 'NULL'); a = ('isnull', a, neg)
             elif s.at_kw('IN') or (s.at_kw('NOT') and s.peek(1) == ('kw', 'IN')):
                 neg = s.accept('kw', 'NOT'); s.expect('kw', 'IN'); s.expect('op', '(')
-                sub = s.select(); s.expect('op', ')'); a = ('in', a, sub, neg)
+                if s.at_kw('SELECT'):
+                    sub = s.select(); s.expect('op', ')'); a = ('in', a, sub, neg)
+                else:
+                    items = []
+                    if not s.at('op', ')'):
+                        items.append(s.expr())
+                        while s.accept('op', ','): items.append(s.expr())
+                    s.expect('op', ')'); a = ('inlist', a, items, neg)
+            elif s.at_kw('LIKE') or (s.at_kw('NOT') and s.peek(1) == ('kw', 'LIKE')):
+                neg = s.accept('kw', 'NOT'); s.expect('kw', 'LIKE'); b = s.p_add(); a = ('like', a, b, neg)
             else: return a
     def p_add(s):
         a = s.p_mul()
@@ -488,8 +497,62 @@ def install_rel(eng, cfg):
             res = True if found else (None if unk and rows else False)
             if e[3]: res = None if res is None else not res
             return as_val(res)
+        if k == 'inlist':
+            v = ev(ctx, e[1], row_env); found = False; unk = v[0] == 'null'
+            for it in e[2]:
+                c = cmp_vals(ctx, '=', v, ev(ctx, it, row_env))
+                if c is True: found = True; break
+                if c is None: unk = True
+            res = True if found else (None if unk and e[2] else False)
+            if e[3]: res = None if res is None else not res
+            return as_val(res)
+        if k == 'like':
+            t, pat = ev(ctx, e[1], row_env), ev(ctx, e[2], row_env)
+            if t[0] == 'null' or pat[0] == 'null': return ('null',)
+            if t[0] != 'text' or pat[0] != 'text': raise E.Inconclusive('sqlmodel', 'LIKE on non-text values')
+            st = ctx.st
+            def ascii_only(bs):
+                for b in bs:
+                    if b.__class__ is int:
+                        if b >= 0x80: raise E.Inconclusive('sqlmodel', 'LIKE / length / substr on non-ASCII text (UTF-8 characters are not modelled)')
+                    elif not eng.decide(st, z3.ULT(E.bv(b, 8), 0x80)): raise E.Inconclusive('sqlmodel', 'LIKE / length / substr on non-ASCII text (UTF-8 characters are not modelled)')
+            ascii_only(t[1]); ascii_only(pat[1])
+            def is_ch(b, ch): return b == ch if b.__class__ is int else bool(eng.decide(st, E.bv(b, 8) == ch))
+            def fold(b):
+                if b.__class__ is int: return b + 0x20 if 0x41 <= b <= 0x5a else b
+                B = E.bv(b, 8); return z3.If(z3.And(z3.UGE(B, 0x41), z3.ULE(B, 0x5a)), B + 0x20, B)
+            def eq_ci(a_, b_):       # SQLite's default LIKE: case-insensitive for ASCII letters only
+                fa, fb = fold(a_), fold(b_)
+                if fa.__class__ is int and fb.__class__ is int: return fa == fb
+                return bool(eng.decide(st, E.bv(fa, 8) == E.bv(fb, 8)))
+            def like(p_, t_):
+                if not p_: return not t_
+                c = p_[0]
+                if is_ch(c, 0x25): return any(like(p_[1:], t_[i:]) for i in range(len(t_) + 1))
+                if not t_: return False
+                if is_ch(c, 0x5f) or eq_ci(c, t_[0]): return like(p_[1:], t_[1:])
+                return False
+            r = like(tuple(pat[1]), tuple(t[1]))
+            return as_val(not r if e[3] else r)
         if k == 'call':
             f = e[1]
+            if f in ('LENGTH', 'SUBSTR', 'SUBSTRING'):
+                a0 = ev(ctx, e[2][0], row_env)
+                if a0[0] == 'null': return ('null',)
+                if a0[0] != 'text': raise E.Inconclusive('sqlmodel', '%s of a non-text value' % f)
+                for b in a0[1]:
+                    if (b.__class__ is int and b >= 0x80) or (b.__class__ is not int and not eng.decide(ctx.st, z3.ULT(E.bv(b, 8), 0x80))):
+                        raise E.Inconclusive('sqlmodel', 'LIKE / length / substr on non-ASCII text (UTF-8 characters are not modelled)')
+                if f == 'LENGTH': return ('int', len(a0[1]))
+                def iarg(i):
+                    v = ev(ctx, e[2][i], row_env)
+                    if v[0] != 'int' or v[1].__class__ is not int: raise E.Inconclusive('sqlmodel', 'substr with a non-constant position')
+                    return sgn(v[1])
+                start = iarg(1); n = len(a0[1])
+                if start <= 0: raise E.Inconclusive('sqlmodel', 'substr with a position <= 0')
+                ln = iarg(2) if len(e[2]) > 2 else n
+                if ln < 0: raise E.Inconclusive('sqlmodel', 'substr with a negative length')
+                return ('text', tuple(a0[1][start - 1:start - 1 + ln]))
             if f == 'COALESCE':
                 for a_ in e[2]:
                     v = ev(ctx, a_, row_env)
